@@ -125,6 +125,20 @@ fn main() {
         dump_corpus(&argv[2], argv[3].parse().unwrap_or(1000), argv.get(4).and_then(|s| s.parse().ok()).unwrap_or(1));
         return;
     }
+    if argv.len() >= 3 && argv[1] == "judge-file" {
+        // `epverif judge-file <file>…`: run the fuzz judges on recorded inputs (corpus / artifacts)
+        shell::install_panic_hook();
+        for f in &argv[2..] {
+            let data = std::fs::read(f).unwrap_or_default();
+            let t = std::time::Instant::now();
+            let v = epverif::fuzz::judge(&data);
+            println!("{} ({} bytes, {:?}): {} violation(s)", f, data.len(), t.elapsed(), v.len());
+            for (s, d) in v {
+                println!("  {}: {}", s, d);
+            }
+        }
+        return;
+    }
     let args = parse_args();
     shell::install_panic_hook();
     if let Some(p) = &args.progress {
